@@ -239,8 +239,7 @@ def run(ctx):
         vlib.model_check(ctx, "MC_Stats.tla", vlib.cfg_variant(ctx, "MC_Stats.cfg", {"MaxSteps": 3}))
         vlib.model_check(ctx, "MC_Stats.tla", "MC_Stats_NegEvict.cfg", expect_violation="Invariant NegEvict is violated")
     else:
-        vlib.model_check(ctx, "MC_Stats.tla", vlib.cfg_variant(ctx, "MC_Stats.cfg", {"MaxSteps": 5}), timeout=3000,
-                         workers=min(vlib.NCPU, 12))
+        vlib.model_check(ctx, "MC_Stats.tla", vlib.cfg_variant(ctx, "MC_Stats.cfg", {"MaxSteps": 5}), timeout=3000)
         for neg in ("NegRtt", "NegLoss", "NegEvict"):
             vlib.model_check(ctx, "MC_Stats.tla", "MC_Stats_%s.cfg" % neg, expect_violation="Invariant %s is violated" % neg)
     # (G) systematic
@@ -257,9 +256,11 @@ def run(ctx):
             l3 = gen_scripts(ctx, base, obase, pre, 3)
             run_batch(ctx, l3, "G-rec-L3-%d" % base)
             run_batch(ctx, as_level(rng.sample(l3, 4000), "icpt"), "G-icpt-L3-%d" % base)
-        walks = gen_scripts(ctx, 65530, 65534, 0, 7, simulate=6000) + gen_scripts(ctx, 2, 1, 3, 7, simulate=6000)
-        run_batch(ctx, walks[:8000], "G-rec-walks")
-        run_batch(ctx, as_level(walks[8000:], "icpt"), "G-icpt-walks")
+        # TLC's simulator prints every successor of the last step: num walks of 6 random letters x all 28 last letters
+        walks = gen_scripts(ctx, 65530, 65534, 0, 7, simulate=300) + gen_scripts(ctx, 2, 1, 3, 7, simulate=300)
+        rng.shuffle(walks)
+        run_batch(ctx, walks[:len(walks) * 2 // 3], "G-rec-walks")
+        run_batch(ctx, as_level(walks[len(walks) * 2 // 3:], "icpt"), "G-icpt-walks")
     # (T) seeded random long histories
     nrec, nic, length = (36, 24, 340) if ctx.quick else (500, 300, 500)
     rs = [random_script(rng, "rec", length) for _ in range(nrec)] + [random_script(rng, "icpt", length) for _ in range(nic)]
